@@ -482,6 +482,9 @@ pub fn check_trace(s: &Script, tr: &Trace, rep: &mut Report) -> Outcome {
                                         if !is_expired && vetoed_ids.contains(&e.id) {
                                             also!("C09", "veto/expiry-index-changed", format!("key {key}: swept at the deadline of a vetoed write, not at its own ({:?})", e.deadline()));
                                         }
+                                        if !is_expired && e.d == 0 {
+                                            also!("C03", "cleanup/no-ttl-entry-swept", format!("key {key} #{id:x} was inserted without TTL and has been swept by the tick at {t}: it became invisible because of time"));
+                                        }
                                         if !is_expired {
                                             fail!("C05", "cleanup/removed-unexpired", "tick at {t} reclaimed key {key} #{id:x} whose deadline is {:?} (ttl {} ns)", e.deadline(), e.d);
                                             also!("C04", "cleanup/removed-unexpired", format!("key {key} swept before its deadline / without one"));
